@@ -1,10 +1,34 @@
-(* Properties_C15.v — obligations of property C15.  Contains only theorem statements closed by
-   `exact <lemma>` and Print Assumptions. *)
-Require Import ObsRun.
+(* Properties_C15.v — obligations of property C15 (callbacks, user data and getters are pure
+   observers). *)
+Require Import ObsRun Lemmas_Core.
 Local Open Scope Z_scope.
 
-(* non-vacuity: the observer of C15 is evaluated (and holds) along a run of the model that
-   touches every group kind *)
+(* Replacing all twelve registrations and the user data of ANY state commutes with every API
+   call other than the ones that set them: the next state is the same up to the observers. *)
+Theorem C15_step_commutes : forall conv lut s o c u,
+  (forall f id, o <> ORegister f id) -> (forall x, o <> OSetUD x) -> o <> OInit ->
+  fst (step conv lut (with_obs c u s) o) = with_obs c u (fst (step conv lut s o)).
+Proof. exact step_commutes. Qed.
+Print Assumptions C15_step_commutes.
+
+(* Hence for EVERY call sequence and EVERY pattern of register / unregister / replace /
+   set_user_data calls interleaved into it, the getter snapshot equals that of the run from which
+   all those observer calls have been deleted.  (Getters are functions of the state in the model;
+   the harness calls all of them after every call and inside every callback.) *)
+Theorem C15_any_registration_pattern : forall conv lut ops s s', snap_of s = snap_of s' ->
+  (exists c u, s = with_obs c u s') -> (forall o, In o ops -> o <> OInit) ->
+  snap_of (run_from conv lut s ops) = snap_of (run_from conv lut s' (strip ops)).
+Proof. exact run_ignores_observers. Qed.
+Print Assumptions C15_any_registration_pattern.
+
+(* every callback is the function most recently registered for its field (never NULL: a removed
+   callback is skipped) and receives the user data most recently set; the two setter calls change
+   nothing a getter shows and fire nothing *)
+Theorem C15_observer : forall conv lut h s o, reach conv lut h s -> wf_op o ->
+  obs_C15 (o :: h) (snap_of s) (snap_of (fst (step conv lut s o))) (snd (step conv lut s o)) (ret_of o) = true.
+Proof. exact C15_observer_holds. Qed.
+Print Assumptions C15_observer.
+
+(* Limit: calling the API from inside a callback (re-entrancy) is not modelled. *)
 Example C15_scenario : check_run_u (observer_u 15) scenario = true.
 Proof. vm_compute. reflexivity. Qed.
-Print Assumptions C15_scenario.
